@@ -492,8 +492,12 @@ class CombinedMinimizationVisitor(cv.ChromosomeVisitor):
             statements_changed = False
             for test_case_idx, test_case_chrom in enumerate(chromosome.test_case_chromosomes):
                 test_case = test_case_chrom.test_case
+                protected = get_assertion_protected_variables(test_case)
                 i = 0
                 while i < test_case.size():
+                    if test_case.get_statement(i).bound_variable in protected:
+                        i += 1
+                        continue
                     test_suite_clone = chromosome.clone()
                     clone_test_case_chrom: tcc.TestCaseChromosome = (
                         test_suite_clone.get_test_case_chromosome(test_case_idx)
